@@ -6,6 +6,7 @@ Helper lemmas: Lemmas/SurfSolver.lean, SurfRay.lean, SurfIsect*.lean, SurfTransf
 -/
 import CelerVerif.Lemmas.SurfIsectComplete
 import CelerVerif.Lemmas.SurfTransform
+import CelerVerif.Lemmas.SurfNormal
 
 namespace CelerVerif.Surf
 open CelerVerif
@@ -140,6 +141,32 @@ theorem transformation_inverse (t : Transformation ℝ) (hc : t.rot.orthoCols) (
 theorem rotation_preserves_norm (t : Transformation ℝ) (hc : t.rot.orthoCols) (d : Vec3 ℝ)
     (hu : unitDir d) : unitDir (t.rotUp d) := by
   unfold unitDir at *; rw [rotUp_norm t hc d]; exact hu
+
+/-- ★ C12.7 the normal is the unit gradient: the vector normalised by `calc_normal` is the
+    gradient of the surface function up to the positive factor `gradScale` (so it points to
+    the positive-sense side), and the normalised vector has length one wherever the gradient
+    does not vanish. Planes return their stored (unit by precondition) normal unchanged. -/
+theorem normal_is_unit_gradient (s : Surface ℝ) (pos v : Vec3 ℝ) :
+    (2 * (s.rayCoeffs pos v).2.1
+        = s.gradScale * ((s.gradient pos).x * v.x + (s.gradient pos).y * v.y
+            + (s.gradient pos).z * v.z) ∧ 0 < s.gradScale) ∧
+    (s.isPlane = false →
+      0 < (s.gradient pos).x * (s.gradient pos).x + (s.gradient pos).y * (s.gradient pos).y
+          + (s.gradient pos).z * (s.gradient pos).z →
+      unitDir (s.calcNormal pos)) := by
+  refine ⟨⟨gradient_is_derivative s pos v, gradScale_pos s⟩, ?_⟩
+  intro hp hg
+  cases s <;> simp [Surface.isPlane] at hp <;> exact makeUnit_unit _ hg
+
+/-- ★ C12.8 the sense flips across every simple crossing: on both sides of a simple root of
+    the ray polynomial, arbitrarily close to it, the surface function has opposite signs -/
+theorem sense_flips_across_crossing (s : Surface ℝ) (pos dir : Vec3 ℝ) (t0 : ℝ)
+    (hroot : s.quadric (along pos dir t0) = 0)
+    (hsimple : 2 * (s.rayCoeffs pos dir).1 * t0 + 2 * (s.rayCoeffs pos dir).2.1 ≠ 0) :
+    ∃ δ > 0, ∀ e, 0 < e → e < δ →
+      s.quadric (along pos dir (t0 - e)) * s.quadric (along pos dir (t0 + e)) < 0 := by
+  simp only [quadric_along] at hroot ⊢
+  exact rayPoly_flips s pos dir t0 hroot hsimple
 
 /-! Non-vacuity -/
 example : unitDir (⟨1, 0, 0⟩ : Vec3 ℝ) := by unfold unitDir; norm_num
